@@ -60,7 +60,7 @@ Lemma walk_group n r body idx s :
     | Some _ => Raise EUBXMessage
     | None =>
         do s' <- cfgval_loop (S (length (w_pay s))) (w_off s) (length (w_pay s) - w_off s) s;
-        Ok {| w_off := w_off s; w_pay := w_pay s'; w_attrs := w_attrs s' |}
+        Ok {| w_off := w_off s; w_pay := w_pay s'; w_attrs := w_attrs s'; w_trace := w_trace s' |}
     end
   else match count r body s with
        | Raise e => Raise e
@@ -95,9 +95,9 @@ Hypothesis R_trans : forall a b c, R a b -> R b c -> R a c.
 Hypothesis R_single : forall n t sc idx s s', single n t sc idx s = Ok s' -> R s s'.
 Hypothesis R_bits : forall t fl idx s s', bitfield t fl idx s = Ok s' -> R s s'.
 Hypothesis R_cfg : forall s s1,
-  kw = None ->
+  kw = None -> is_cfgval cls id mode = true ->
   cfgval_loop (S (length (w_pay s))) (w_off s) (length (w_pay s) - w_off s) s = Ok s1 ->
-  R s {| w_off := w_off s; w_pay := w_pay s1; w_attrs := w_attrs s1 |}.
+  R s {| w_off := w_off s; w_pay := w_pay s1; w_attrs := w_attrs s1; w_trace := w_trace s1 |}.
 
 Lemma walk_list_inv ds :
   Forall (fun d => forall idx s s', walk idx d s = Ok s' -> R s s') ds ->
@@ -115,7 +115,7 @@ Proof.
   - cbn in H. eapply R_single; eauto.
   - cbn in H. eapply R_single; eauto.
   - cbn in H. destruct bf; [eapply R_bits|eapply R_single]; eauto.
-  - rewrite walk_group in H. destruct (is_cfgval cls id mode).
+  - rewrite walk_group in H. destruct (is_cfgval cls id mode) eqn:Ecfg.
     + destruct kw eqn:Ek; [discriminate|].
       destruct (cfgval_loop _ _ _ s) as [s1|] eqn:E; [|discriminate]. cbn in H. injection H as <-.
       apply R_cfg; auto.
